@@ -437,6 +437,21 @@ func generate(family string, rng *rand.Rand, thorough bool) []plan {
 			}
 			add(plan{stage: &Stage{Kind: "emit", N: rng.Intn(4), Freq: freq, A: 2, B: 1}, sched: &scripted{script: sc}, maxMoves: 40, drain: true, gen: "keeps-up"})
 			add(plan{stage: &Stage{Kind: "unfold", N: rng.Intn(4), Seed: rng.Intn(5), A: rng.Intn(2) + 1, B: rng.Intn(3) + 1}, sched: rnd(0, 0, 5, wc, 0, 0, nil), maxMoves: 30, drain: true, gen: "random"})
+			// absent consumer: a few receives (or none), cancel, and nobody receives again
+			ucap := rng.Intn(3)
+			var ab []intent
+			for j := 0; j < rng.Intn(3); j++ {
+				ab = append(ab, intent{kind: "recv", k: 0})
+			}
+			ab = append(ab, intent{kind: "cancel"})
+			add(plan{stage: &Stage{Kind: "unfold", N: ucap, Seed: rng.Intn(5), A: 2, B: 1}, sched: &scripted{script: ab}, maxMoves: 10, drain: false, gen: "absent-consumer"})
+			ecap := rng.Intn(3)
+			eb := []intent{{kind: "sleep", d: freq * rng.Intn(3)}}
+			for j := 0; j < rng.Intn(2); j++ {
+				eb = append(eb, intent{kind: "recv", k: 0})
+			}
+			eb = append(eb, intent{kind: "cancel"}, intent{kind: "sleep", d: (ecap + 2) * freq})
+			add(plan{stage: &Stage{Kind: "emit", N: ecap, Freq: freq, A: 1, B: 0}, sched: &scripted{script: eb}, maxMoves: 10, drain: false, gen: "absent-consumer"})
 		}
 	case "C12":
 		for rep := 0; rep < 12*mul; rep++ {
